@@ -47,11 +47,14 @@ class Schedule:
         self.starved = spec.get("starved")               # sid or None
         self.choices = spec.get("choices")               # optional explicit choice list
         self.split = bool(spec.get("split"))             # remote transports: split frames into segments
+        self.slow = spec.get("slow")                     # {"sid", "delay"}: every reply of that simulator takes that long
         self.used: Dict[str, float] = {}
 
     def max_delay(self) -> float:
         """Upper bound of a single delay this schedule can produce."""
         m = max(self.overrides.values(), default=0.0)
+        if self.slow:
+            m = max(m, float(self.slow["delay"]))
         if self.choices is not None:
             return max(m, max(self.choices, default=0.0) * self.unit)
         top = {"sync": 0, "zero": 0, "explicit": 0, "uniform": 5, "ties": 2, "per_sim": 15, "heavy": 50,
@@ -72,6 +75,8 @@ class Schedule:
             d["choices"] = list(self.choices)
         if self.split:
             d["split"] = True
+        if self.slow:
+            d["slow"] = dict(self.slow)
         return d
 
     def delay(self, sid: str, ordinal: int, phase: str) -> Optional[float]:
@@ -80,6 +85,8 @@ class Schedule:
             d = self.overrides[key]
         elif key in self.zeroed:
             d = 0.0
+        elif self.slow and sid == self.slow["sid"] and phase in ("rep", "xrep"):
+            d = float(self.slow["delay"])
         else:
             d = self._profile_delay(sid, ordinal, phase)
         if d is not None:
